@@ -24,6 +24,10 @@ pub struct ListGen<'a> {
     /// the tail bound inside a structured sub-pattern on a `('list | [])` field may be passed on as a list
     /// (open: it is typed `Cons | Nil | []`, see notes/C02-fixes/14 "REMAINS")
     pub opt_tail: bool,
+    /// arguments of partial-typed parameters may have the partial's fields anywhere (open finding
+    /// typing=partial-typed-parameter-read-by-position: today only tuples that START with them, in order, are
+    /// read right)
+    pub any_layout: bool,
 }
 
 /// a branch of a generated function
@@ -55,7 +59,7 @@ pub struct Fun {
 
 impl<'a> ListGen<'a> {
     pub fn new(r: &'a mut Rng) -> Self {
-        ListGen { r, counter: 0, steer: false, opt_binder: false, opt_tail: false }
+        ListGen { r, counter: 0, steer: false, opt_binder: false, opt_tail: false, any_layout: false }
     }
 
     fn k(&mut self) -> i64 {
@@ -424,6 +428,73 @@ impl<'a> ListGen<'a> {
                 "shapefield" => format!("[{sh}, {k}] {name}"),
                 _ => format!("E[id: {k}, s: {sh}] {name}"),
             });
+        }
+        steps.push(format!("[{}]", obs.join(", ")));
+        steps.join(", ")
+    }
+
+    // ---------------------------------------------------------------------------------------------
+    // third family: PARTIAL types as parameter types — "any tuple that has these fields"
+    // ---------------------------------------------------------------------------------------------
+
+    /// a tuple literal that has the integer fields `x` (and `y` if asked), under a random name, with extra
+    /// fields; with `any_layout` in any order, otherwise the asked fields first and in order
+    fn record_lit(&mut self, with_y: bool, name: Option<&str>) -> String {
+        let mut fields = vec![format!("x: {}", self.k())];
+        if with_y {
+            fields.push(format!("y: {}", self.k()));
+        }
+        let mut extra = vec![];
+        if !with_y && self.r.chance(1, 2) {
+            extra.push(format!("y: {}", self.k()));
+        }
+        if self.r.chance(1, 2) {
+            extra.push(format!("z: {}", 5 + self.k()));
+        }
+        if self.r.chance(1, 4) {
+            extra.push("w: 0x07".to_string());
+        }
+        fields.extend(extra);
+        if self.any_layout {
+            self.r.shuffle(&mut fields);
+        }
+        let n = match name {
+            Some(n) => n.to_string(),
+            None => ["", "P", "Q", "R"][self.r.usize(4)].to_string(),
+        };
+        format!("{n}[{}]", fields.join(", "))
+    }
+
+    pub fn program_partials(&mut self) -> String {
+        let mut steps: Vec<String> = vec!["'hx = (x: 'int)".into(), "'hxy = (x: 'int, y: 'int)".into(), "'np = P(x: 'int)".into()];
+        // (name, needs y, needs the name P)
+        let mut funs: Vec<(String, bool, bool)> = vec![];
+        let nf = 1 + self.r.usize(3);
+        for _ in 0..nf {
+            let name = self.fresh("q");
+            let k = self.k();
+            let (src, with_y, named) = match self.r.below(10) {
+                0 => (format!("#'hx {{ $.x }}"), false, false),
+                1 => (format!("#'hx {{ =(x) => {} }}", self.any_result(&["x"])), false, false),
+                2 => (format!("#'hxy {{ [$.x, $.y] {} }}", self.op()), true, false),
+                3 => (format!("#'hxy {{ | =(x: {k}) => $.y | =(x, y) => [x, y] {} }}", self.op()), true, false),
+                4 => (format!("#'hxy {{ =* => [x, y] {} }}", self.op()), true, false),
+                5 => (format!("#'np {{ .x }}"), false, true),
+                6 => (format!("#(x: 'int) {{ =v => [v.x, {k}] {} }}", self.op()), false, false),
+                7 => (format!("#(x: 'int, y: 'int) {{ | =(y: {k}) => $.x | [$.y, $.x] {} }}", self.op()), true, false),
+                8 => (format!("#[(x: 'int), 'int] {{ =[(x), a] => [x, a] {} }}", self.op()), false, false),
+                _ => (format!("#'hx {{ ~.x {{ | ={k} => 9 | ~ }} }}"), false, false),
+            };
+            steps.push(format!("{name} = {src}"));
+            funs.push((name, with_y, named));
+        }
+        let mut obs = vec![];
+        let no = 2 + self.r.usize(3);
+        for _ in 0..no {
+            let (name, with_y, named) = funs[self.r.usize(funs.len())].clone();
+            let lit = self.record_lit(with_y, if named { Some("P") } else { None });
+            let wrapped = steps.iter().any(|s| s.starts_with(&format!("{name} = #[(x: 'int), 'int]")));
+            obs.push(if wrapped { format!("[{lit}, {}] {name}", self.k()) } else { format!("{lit} {name}") });
         }
         steps.push(format!("[{}]", obs.join(", ")));
         steps.join(", ")
